@@ -97,6 +97,9 @@ func Generate(profile string, seed uint64, tier string) (*Scenario, error) {
 	case "C12c":
 		sc.Property = "C12"
 		genC12c(g, sc, tier)
+	case "C11":
+		sc.Property = "C11"
+		genC11(g, sc, tier)
 	case "C15":
 		sc.Property = "C15"
 		genC15(g, sc, tier)
@@ -426,6 +429,8 @@ func Execute(sc *Scenario) *Verdict {
 		return RunSecScenario(sc)
 	case "C14":
 		return RunRestartScenario(sc)
+	case "C11":
+		return RunC11Scenario(sc)
 	case "C15":
 		return RunC15Scenario(sc)
 	case "C08", "C10", "C17", "C18":
@@ -1512,4 +1517,189 @@ func genC15(g *G, sc *Scenario, tier string) {
 			sc.Ops = append(sc.Ops, Op{K: "malformed", Ents: ents, N: g.Intn(6), M: spec})
 		}
 	}
+}
+
+// genC11: jobs assembled from every building block the scheduler knows, with cron and on-change
+// triggers, error handlers and both run types; client tasks start, kill, pause, resume, re-configure and
+// delete them, write to monitored datasets and poll the status while simulated time lets cron fire.
+func genC11(g *G, sc *Scenario, tier string) {
+	// layered datasets: clients write layer 0, a job of level L reads and monitors layers <= L and writes
+	// layer L+1, so that no chain of on-change triggers feeds itself
+	layers := [][]string{{"dA", "dB"}, {"dC"}, {"dD"}}
+	sc.Datasets = []string{"dA", "dB", "dC", "dD"}
+	level := 0
+	data := layers[0]
+	setLevel := func(l int) {
+		level = l
+		data = nil
+		for i := 0; i <= l; i++ {
+			data = append(data, layers[i]...)
+		}
+	}
+	setLevel(0)
+	sc.Knobs["poolIncr"] = int64(g.Range(1, 3))
+	sc.Knobs["poolFull"] = int64(g.Range(1, 2))
+	sc.Knobs["preemptRaffle"] = int64(g.PickInt([]int{0, 1, 1}))
+	js := func(code string) string { return base64.StdEncoding.EncodeToString([]byte(code)) }
+	source := func() map[string]any {
+		switch g.Intn(10) {
+		case 0, 1, 2:
+			m := map[string]any{"Type": "DatasetSource", "Name": g.Pick(data)}
+			if g.P(0.4) {
+				m["LatestOnly"] = g.P(0.5)
+			}
+			return m
+		case 3:
+			var l []any
+			for i := g.Range(1, 3); i > 0; i-- {
+				l = append(l, map[string]any{"Name": g.Pick(data)})
+			}
+			return map[string]any{"Type": "UnionDatasetSource", "DatasetSources": l}
+		case 4:
+			other := g.Pick(data)
+			return map[string]any{"Type": "MultiSource", "Name": g.Pick(data), "Dependencies": []any{map[string]any{"dataset": other,
+				"joins": []any{map[string]any{"dataset": other, "predicate": "ns4:j0", "inverse": g.P(0.5)}}}}}
+		case 5:
+			return map[string]any{"Type": "SampleSource", "NumberOfEntities": float64(g.Range(0, 7))}
+		case 6, 7:
+			return map[string]any{"Type": "SlowSource", "Sleep": g.Pick([]string{"1ms", "700ms", "2500ms", "9s"}), "BatchSize": float64(g.Range(0, 4))}
+		default:
+			return map[string]any{"Type": "HttpDatasetSource", "Url": "http://" + g.Pick([]string{"ok.sim", "ok.sim", "fail.sim", "err.sim", "slow.sim"}) + "/datasets/x/changes"}
+		}
+	}
+	sink := func() map[string]any {
+		switch g.Intn(8) {
+		case 0, 1, 2, 3:
+			return map[string]any{"Type": "DatasetSink", "Name": g.Pick(layers[level+1])}
+		case 4:
+			return map[string]any{"Type": "DevNullSink"}
+		case 5:
+			return map[string]any{"Type": "ConsoleSink", "Prefix": "c11 ", "Detailed": g.P(0.3)}
+		default:
+			return map[string]any{"Type": "HttpDatasetSink", "Url": "http://" + g.Pick([]string{"ok.sim", "fail.sim", "err.sim"}) + "/datasets/y/entities"}
+		}
+	}
+	transform := func() map[string]any {
+		switch g.Intn(9) {
+		case 0, 1, 2, 3:
+			return nil
+		case 4, 5:
+			m := map[string]any{"Type": "JavascriptTransform", "Code": js("function transform_entities(entities) { return entities; }")}
+			if g.P(0.6) {
+				m["Parallelism"] = float64(g.PickInt([]int{0, 1, 2, 5, -1}))
+			}
+			return m
+		case 6:
+			return map[string]any{"Type": "JavascriptTransform", "Code": js("function transform_entities(entities) { throw new Error('scripted transform failure'); }"), "Parallelism": float64(g.Range(1, 3))}
+		case 7:
+			return map[string]any{"Type": "JavascriptTransform", "Code": js("function transform_entities(entities) { var out = []; for (var i = 0; i < entities.length; i++) { if (i % 2 == 0) { out.push(entities[i]); } } return out; }")}
+		default:
+			return map[string]any{"Type": "HttpTransform", "Url": "http://" + g.Pick([]string{"ok.sim", "fail.sim", "err.sim"}) + "/transform"}
+		}
+	}
+	handlers := func() []any {
+		var l []any
+		if g.P(0.45) {
+			m := map[string]any{"errorHandler": g.Pick([]string{"log", "log", "Log"})}
+			if g.P(0.5) {
+				m["maxItems"] = float64(g.Range(0, 3))
+			}
+			l = append(l, m)
+		}
+		if g.P(0.4) {
+			m := map[string]any{"errorHandler": g.Pick([]string{"reRun", "rerun"})}
+			if g.P(0.7) {
+				m["maxRetries"] = float64(g.Range(0, 3))
+			}
+			if g.P(0.7) {
+				m["retryDelay"] = float64(g.PickInt([]int{1, 2, 7, 20}))
+			}
+			l = append(l, m)
+		}
+		if g.P(0.1) {
+			l = append(l, map[string]any{"errorHandler": "reQueue", "maxItems": float64(g.Range(0, 2))})
+		}
+		return l
+	}
+	trigger := func() map[string]any {
+		t := map[string]any{"jobType": g.Pick([]string{"incremental", "incremental", "fullsync"})}
+		if g.P(0.6) {
+			t["triggerType"] = "cron"
+			t["schedule"] = fmt.Sprintf("@every %ds", g.PickInt([]int{1, 2, 3, 5, 7, 11}))
+		} else {
+			t["triggerType"] = "onchange"
+			t["monitoredDataset"] = g.Pick(data)
+		}
+		if hs := handlers(); len(hs) > 0 {
+			t["onError"] = hs
+		}
+		return t
+	}
+	njobs := g.Range(1, 4)
+	var ids []string
+	mkJob := func(id string) map[string]any {
+		setLevel(g.Intn(2))
+		defer setLevel(0)
+		cfg := map[string]any{"id": id, "title": "title-" + id, "source": source(), "sink": sink(), "paused": g.P(0.15), "batchSize": float64(g.PickInt([]int{0, 1, 2, 5}))}
+		if t := transform(); t != nil {
+			cfg["transform"] = t
+		}
+		var ts []any
+		for i := g.Range(1, 2); i > 0; i-- {
+			ts = append(ts, trigger())
+		}
+		cfg["triggers"] = ts
+		return cfg
+	}
+	ent := func() Ent {
+		return Ent{"id": fmt.Sprintf("%se%d", MkE, g.Intn(6)), "props": map[string]any{MkS + "v": float64(g.Intn(1000))}, "refs": map[string]any{}}
+	}
+	for _, d := range data {
+		if g.P(0.8) {
+			var ents []Ent
+			for i := g.Range(1, 5); i > 0; i-- {
+				ents = append(ents, ent())
+			}
+			sc.Ops = append(sc.Ops, Op{K: "batch", DS: d, Ents: ents})
+		}
+	}
+	for i := 0; i < njobs; i++ {
+		id := fmt.Sprintf("job%d", i+1)
+		ids = append(ids, id)
+		sc.Ops = append(sc.Ops, Op{K: "addJob", M: mkJob(id)})
+	}
+	// planned faults by arrival count
+	for i := g.Intn(4); i > 0; i-- {
+		sc.Faults = append(sc.Faults, Fault{At: g.Pick([]string{"sink.dataset", "sink.dataset", "transform.batch", "StoreEntities.dataCommit"}), Hit: g.Range(1, 12), Kind: "error"})
+	}
+	ntasks := g.Range(2, 4)
+	for t := 0; t < ntasks; t++ {
+		var ops []Op
+		for n := g.Range(3, 9); n > 0; n-- {
+			id := g.Pick(ids)
+			switch g.Intn(12) {
+			case 0, 1:
+				ops = append(ops, Op{K: "runJob", S: id, DS: g.Pick([]string{"incremental", "fullsync"})})
+			case 2:
+				ops = append(ops, Op{K: "killJob", S: id})
+			case 3:
+				ops = append(ops, Op{K: g.Pick([]string{"pause", "unpause", "unpause"}), S: id})
+			case 4, 5:
+				ops = append(ops, Op{K: "batch", DS: g.Pick(data), Ents: []Ent{ent()}})
+			case 6, 7:
+				ops = append(ops, Op{K: "status", S: id})
+			case 8:
+				if g.P(0.5) {
+					ops = append(ops, Op{K: "addJob", M: mkJob(id)})
+				} else {
+					ops = append(ops, Op{K: "deleteJob", S: id})
+				}
+			default:
+				ops = append(ops, Op{K: "sleep", N: g.PickInt([]int{1, 300, 1100, 2300, 5200, 12500})})
+			}
+		}
+		sc.Tasks = append(sc.Tasks, ops)
+	}
+	sc.Knobs["schedSeed"] = int64(g.r.Uint64() >> 1)
+	sc.Knobs["preemptPct"] = int64(g.PickInt([]int{5, 20, 40}))
 }
